@@ -108,3 +108,20 @@ package metrics
 //@   requires scope != nil && c.id >= 1 && scopeOK(scope) && c.id < len(metrics)
 //@   ensures  result == old(cv(scope, c.id))
 //@   modifies scope.insts
+
+// ---- C20: transport. The encoder puts exactly the instance of every registered metric on the wire, in registry
+// ---- order; the decoder adopts exactly the received instances, or rejects a list of the wrong length and leaves the
+// ---- scope unchanged. With the assumed gob contract (values arrive unchanged) decode(encode(s)) reports s's values.
+//@ func metrics.(*Scope).GobEncode () (p, err)
+//@   requires s != nil && regOK()
+//@   ensures  wire-is-the-registered-instances: implies(err == nil, len(gobWire) == len(metrics) && forall(k, 0, len(metrics), gobWire[k] == s.insts[k]))
+//@   ensures  source-unchanged: s.insts == old(s.insts)
+//@   modifies gobWire
+//@   loop 1 invariant list != nil && fresh(list) && len(list) == len(metrics) && forall(k, 0, range_idx, list[k] == s.insts[k]) && regOK()
+
+//@ func metrics.(*Scope).GobDecode (p) (err)
+//@   requires s != nil && regOK()
+//@   ensures  adopted: implies(err == nil, len(gobWire) == len(metrics) && forall(k, 0, len(metrics), s.insts[k] == gobWire[k]))
+//@   ensures  rejected-unchanged: implies(err != nil, s.insts == old(s.insts))
+//@   modifies s.insts, lastBytesReader
+//@   loop 1 invariant regOK() && len(list) == len(metrics) && len(gobWire) == len(metrics) && forall(i, 0, len(gobWire), list[i] == gobWire[i]) && forall(k, 0, range_idx, s.insts[k] == gobWire[k])
